@@ -128,9 +128,14 @@ def run(ctx):
             continue
         has_default = any(isinstance(c, ast.keyword) and c.arg == "default" and norm(c.value) == dparam for s in n.body for c in ast.walk(s))
         ctx.check("C15.R5", f"{kind} arm passes default=default", has_default, pp.where(n), f"Parser._parse {kind} arm: {[norm(r)[:70] for r in rets]}", f"a field of type {kind} absent from the JSON text would raise 'no value and no default' although the schema declares one")
-    pr = p.func("io.parser:Parser._process_record")
-    ok = any(isinstance(c, ast.Call) and norm(c.func) == "RecordStart" and any(k.arg == "default" for k in c.keywords) for c in ast.walk(pr.node)) and any(isinstance(c, ast.Call) and norm(c.func) == "self._parse" and "field.get('default', NO_DEFAULT)" in norm(c) for c in ast.walk(pr.node))
-    ctx.check("C15.R5", "_process_record: RecordStart carries the record default, fields are compiled with field.get('default', NO_DEFAULT)", ok, pr.where(), "Parser._process_record", "field defaults do not reach the grammar")
+    # the function that builds a record's production, by role: the one that constructs RecordStart
+    prs = [m_ for m_ in pp.mod.all_funcs if any(isinstance(c, ast.Call) and norm(c.func) == "RecordStart" for c in ast.walk(m_.node))]
+    if len(prs) != 1:
+        ctx.unrecognised("C15.R5", "record production", pp.where(), f"{len(prs)} functions construct RecordStart")
+    else:
+        pr = prs[0]
+        ok = any(isinstance(c, ast.Call) and norm(c.func) == "RecordStart" and any(k.arg == "default" for k in c.keywords) for c in ast.walk(pr.node)) and any(isinstance(c, ast.Call) and norm(c.func) == "self._parse" and re.search(r"\w+\.get\('default', NO_DEFAULT\)", norm(c)) for c in ast.walk(pr.node))
+        ctx.check("C15.R5", "record production: RecordStart carries the record default, fields are compiled with field.get('default', NO_DEFAULT)", ok, pr.where(), pr.qualname, "field defaults do not reach the grammar")
     rv = decJ.methods["read_value"]
     rcfg = cfg_of(rv)
     symp = rv.pos_params[1]
